@@ -111,18 +111,18 @@ namespace via
             return false;
           else if (std::isblank(c))
           {
-            // Ignore leading whitespace
-            // but only upto to a limit!
-            if (++ws_count_ > MAX_WHITESPACE_CHARS)
-            {
-              state_ = Request::ERROR_WS;
-              return false;
-            }
-
+            // the whitespace after the uri
             if (!uri_.empty())
             {
               ws_count_ = 1;
               state_ = Request::HTTP_H;
+            }
+            // Ignore leading whitespace
+            // but only upto to a limit!
+            else if (++ws_count_ > MAX_WHITESPACE_CHARS)
+            {
+              state_ = Request::ERROR_WS;
+              return false;
             }
           }
           else
